@@ -8,6 +8,7 @@
 
 mod alloc;
 mod core;
+mod corpus;
 mod item;
 mod refhash;
 mod registry;
@@ -226,17 +227,20 @@ fn cmd_replay(file: &Path, quiet: bool) -> i32 {
     let scratch = verif_root().join("sim").join("target").join("parts");
     std::fs::create_dir_all(&scratch).ok();
     match exec_script_class(sc.as_ref(), &script, &scratch) {
-        Ok(Some(v)) => {
+        Ok(vs) if !vs.is_empty() => {
+            let same = vs.iter().any(|v| v.invariant == rf.violation.invariant);
             if !quiet {
                 println!("VIOLATION property={} replay={}", rf.property, file.display());
-                println!("  class: {}\n  detail: {}", v.invariant, v.detail);
-                if v.invariant != rf.violation.invariant {
+                for v in &vs {
+                    println!("  class: {}\n  detail: {}", v.invariant, v.detail);
+                }
+                if !same {
                     println!("  (recorded class was: {})", rf.violation.invariant);
                 }
             }
-            if v.invariant == rf.violation.invariant || !quiet { 1 } else { 3 }
+            if same || !quiet { 1 } else { 3 }
         }
-        Ok(None) => {
+        Ok(_) => {
             if !quiet {
                 println!("NOT-REPRODUCED property={} replay={}", rf.property, file.display());
             }
@@ -263,7 +267,7 @@ fn main() {
         Some("child") if args.len() >= 7 => {
             let sc = registry::find_scenario(&args[2]).unwrap_or_else(|| harness_fail("scenario"));
             let tier = Tier::parse(&args[3]).unwrap();
-            child_main(sc.as_ref(), args[4].parse().unwrap(), tier, args[5].parse().unwrap(), args[6].parse().unwrap());
+            child_main(sc.as_ref(), args[4].parse().unwrap(), tier, args[5].parse().unwrap(), args[6].parse().unwrap(), args.get(7).and_then(|s| s.parse().ok()).unwrap_or(0));
             0
         }
         Some("replay-inner") if args.len() >= 3 => {
